@@ -35,7 +35,10 @@ def pick_configs(ad, tier):
     # episodes of moderate length (things must have time to happen), non-default sizes first (cheaper in plain Python);
     # one configuration in the quick tier, three in the thorough tier
     out.sort(key=lambda c: (c["id"].startswith("default"), abs(min(c.get("max_steps", 60), 200) - 40)))
-    return out[:1 if tier == "quick" else 3]
+    # ... plus the configurations the adapter nominates (sizes at which something only happens on a rare transition)
+    named = [c for c in ad.configs(tier) if c.get("pure_events")]
+    picked = out[:1 if tier == "quick" else 3]
+    return picked + [c for c in named if c["id"] not in {p["id"] for p in picked}]
 
 
 def changed_leaves(a, b):
@@ -127,14 +130,17 @@ def drive(mod, tier, seed):
             for ep in sorted(by_ep):
                 if by_ep[ep]:
                     order.append(by_ep[ep].pop(0))
+        # (a configuration the adapter nominated is short and is replayed in full: the transition that matters there may
+        # look like any other one to the code under test - that is the point)
+        cap, K_cfg = (2, K) if not cfg.get("pure_events") else (40, 40)
         chosen, per_sig = [], {}
         for t in order:
             sig = (t[1], t[2], t[3])
-            if per_sig.get(sig, 0) >= 2:
+            if per_sig.get(sig, 0) >= cap:
                 continue
             per_sig[sig] = per_sig.get(sig, 0) + 1
             chosen.append(t[:6])
-            if len(chosen) >= K:
+            if len(chosen) >= K_cfg:
                 break
         # the same eventful transitions as one batch under vmap (lane j must equal the jitted single call)
         # (states of one pytree structure only: a harness-side witness generator may hand out a richer reset state)
